@@ -13,6 +13,7 @@ R22d  stream hashing reads the atom body AFTER its length prefix has been consum
 """
 import ast
 import hashlib
+import re
 from lib import mir
 from lib.mir import strip, show, walk
 from rules.c07 import is_test_fn
@@ -93,7 +94,7 @@ def run(ctx):
                 elif fb and fb[0] == 2 and fb[1] == 1 and len(arr[2]) == 3:
                     okc = True
             ck.ob("R22a", f"{f.path}|{callee.split('::')[-1]}", okc, "blob list is [01, atom bytes] or [02, left hash, right hash]", site=f.where(b), detail=det)
-    ck.floor("blob-list hash call sites", n_bl, 6)
+    ck.floor("blob-list hash call sites", n_bl, 4)
     sk = cr.fn("serde::de_tree::skip_or_sha_bytes")
     ck.analysed(sk)
     ups = [f_ for f_ in [sk.expr_op(t["args"][1], deep=False) for _, t in sk.calls() if (t.get("callee") or "").endswith("Sha256::update")]]
@@ -124,78 +125,75 @@ def run(ctx):
     ck.analysed("py:wheel/python/clvm_rs/tree_hash.py")
 
     # ---------------------------------------------------------------- R22b
+    # Everything below is decided from WHICH pop feeds WHICH argument and WHICH field of the pair is pushed first - never
+    # from what a local is called (lib.bounds.arg_pop_sites, lib.mir.vec_pushes).
+    from lib.bounds import arg_pop_sites
     # (1) allocator walker: tree_hash_costed
     th = cr.fn("treehash::tree_hash_costed")
     ck.analysed(th)
-    pushes = [(b, show(th.expr_op(t["args"][1], deep=False))) for b, t in th.calls()
-              if (t.get("callee") or "").endswith("Vec::<T, A>::push") and show(th.expr_op(t["args"][0], deep=False)).endswith("ops")]
-    sexp_order = [v for b, v in sorted(pushes, key=lambda x: (len(th.dominators(x[0])), x[0])) if v.startswith("SExp(") and v != "SExp(node)"]
-    pops = ordered_calls(th, lambda t: (t.get("callee") or "").endswith("Vec::<T, A>::pop") and "hashes" in show(th.expr_op(t["args"][0], deep=False)))
+    pushes = mir.vec_pushes(th, "TreeOp")
+    sexp_order = [v for b, v in sorted(pushes, key=lambda x: (len(th.dominators(x[0])), x[0])) if v in ("SExp(child0)", "SExp(child1)")]
     pair = th.calls_to("treehash::tree_hash_pair")
-    ok = sexp_order == ["SExp(left)", "SExp(right)"] and len(pops) == 2 and len(pair) == 1
+    ok = sexp_order == ["SExp(child0)", "SExp(child1)"] and len(pair) == 1
     det = {"child pushes": sexp_order}
     if ok:
-        a0 = th.expr_op(pair[0][1]["args"][0])
-        a1 = th.expr_op(pair[0][1]["args"][1])
-        first_pop_local, second_pop_local = pops[0][1]["dst"]["l"], pops[1][1]["dst"]["l"]
-
-        def from_pop(e, l):
-            return any(x[0] in ("var", "named") and x[2] == l for x in walk(th.expr_op(pair[0][1]["args"][0 if e is a0 else 1], deep=False))) or \
-                any(x[0] == "call" and x[1].endswith("::pop") for x in walk(e))
-        # resolve through unwrap(): arg0 must come from the pop that dominates the other
-        s0 = show(th.expr_op(pair[0][1]["args"][0], deep=False))
-        s1 = show(th.expr_op(pair[0][1]["args"][1], deep=False))
-        n0 = th.local_by_name(s0.lstrip("&"))
-        n1 = th.local_by_name(s1.lstrip("&"))
-        d0 = th.defs(n0[0])[0][0] if n0 and th.defs(n0[0]) else None
-        d1 = th.defs(n1[0])[0][0] if n1 and th.defs(n1[0]) else None
-        det.update({"arg0": s0, "arg1": s1})
-        # left pushed first => right processed first => left's hash is on top => arg0 is defined from the FIRST pop
-        ok = d0 is not None and d1 is not None and th.dominates(d0, d1) and d0 != d1
+        s0, s1 = arg_pop_sites(th, cr, pair[0][0])[:2]
+        det.update({"arg0 pop block": s0, "arg1 pop block": s1})
+        # left pushed first => right processed first => left's hash is on top => arg0 comes from the FIRST pop
+        ok = s0 is not None and s1 is not None and s0 != s1 and th.dominates(s0, s1)
     ck.ob("R22b", th.path, ok, "children pushed left then right (right is hashed first), so the first hash popped is the left child's and is passed first",
           site=th.where(pair[0][0]) if pair else th.where(0), detail=det)
     # (2) stream decoder: tree_hash_from_stream
     ts = cr.fn("serde::tools::tree_hash_from_stream")
     ck.analysed(ts)
-    pops = ordered_calls(ts, lambda t: (t.get("callee") or "").endswith("Vec::<T, A>::pop") and "values" in show(ts.expr_op(t["args"][0], deep=False)))
     hp = ts.calls_to("serde::tools::hash_pair")
-    ok = len(hp) == 1 and len(pops) >= 2
+    ok = len(hp) == 1
+    det = {}
     if ok:
-        s0 = show(ts.expr_op(hp[0][1]["args"][0], deep=False))
-        s1 = show(ts.expr_op(hp[0][1]["args"][1], deep=False))
-        # v2 = pop (first pop = right), v1 = pop (second pop = left); hash_pair(v1, v2)
-        l0 = [l for l in range(len(ts.locals)) if ts.local_name(l) and ts.local_name(l) in s0]
-        l1 = [l for l in range(len(ts.locals)) if ts.local_name(l) and ts.local_name(l) in s1]
-        d0 = ts.defs(l0[0])[0][0] if l0 and ts.defs(l0[0]) else None
-        d1 = ts.defs(l1[0])[0][0] if l1 and ts.defs(l1[0]) else None
+        s0, s1 = arg_pop_sites(ts, cr, hp[0][0])[:2]
+        det = {"arg0 pop block": s0, "arg1 pop block": s1}
         # the stream yields left first => left's hash is deeper => arg0 comes from the SECOND pop
-        ok = d0 is not None and d1 is not None and ts.dominates(d1, d0) and d0 != d1
-        # and the cons marker schedules Cons beneath the two sub-expressions
+        ok = s0 is not None and s1 is not None and s0 != s1 and ts.dominates(s1, s0)
     ck.ob("R22b", ts.path, ok, "a stream yields the left child first, so the second hash popped is the left child's and is passed first",
-          site=ts.where(hp[0][0]) if hp else ts.where(0), detail={"args": [s0, s1] if hp else None})
-    # (3) read-cache: left = second pop
+          site=ts.where(hp[0][0]) if hp else ts.where(0), detail=det)
+    # (3) read-cache: the stack's top is the right child
     pc = cr.fn("serde::read_cache_lookup::ReadCacheLookup::pop2_and_cons")
     ck.analysed(pc)
-    pp = ordered_calls(pc, lambda t: (t.get("callee") or "") == "serde::read_cache_lookup::ReadCacheLookup::pop")
     hb = pc.calls_to("serde::bytes32::hash_blobs")
-    ok = len(pp) == 2 and len(hb) == 1
+    ok = len(hb) == 1
+    det = {}
     if ok:
-        names = [pc.local_name(t["dst"]["l"]) for _, t in pp]
-        arr = [x for x in walk(pc.expr_op(hb[0][1]["args"][0], deep=False)) if x[0] == "agg" and x[1] == "array"]
-        els = [show(x) for x in arr[0][2]] if arr else []
-        ok = names == ["right", "left"] and len(els) == 3 and "left" in els[1] and "right" in els[2]
-    ck.ob("R22b", pc.path, ok, "the stack's top is the right child: right is popped first, and the pair hash is 02||left||right", site=pc.where(0))
-    # (4) object cache: left_value from cache(left), right_value from cache(right)
+        els = arg_pop_sites(pc, cr, hb[0][0])[0]
+        arr = [x for x in walk(pc.expr_op(hb[0][1]["args"][0])) if x[0] == "agg" and x[1] == "array"]
+        first = show(arr[0][2][0]) if arr and arr[0][2] else ""
+        det = {"blob pop blocks": els, "prefix": first}
+        # 02 || (second pop) || (first pop): the first pop is the right child
+        ok = isinstance(els, list) and len(els) == 3 and els[0] is None and els[1] is not None and els[2] is not None and els[1] != els[2] \
+            and pc.dominates(els[2], els[1]) and "b'02'" in first
+    ck.ob("R22b", pc.path, ok, "the stack's top is the right child: right is popped first, and the pair hash is 02||left||right", site=pc.where(0), detail=det)
+    # (4) object cache: 02 || cached hash of child 0 || cached hash of child 1.  Two idioms: the right lookup mapped through a closure
+    # that captured the left hash, or two `?` on the lookups followed by the hash in the function itself.
     oc = cr.fn("serde::object_cache::treehash")
-    occ = cr.fn("serde::object_cache::treehash::{closure#0}")
-    ck.analysed(oc, occ)
+    occ = cr.fns.get("serde::object_cache::treehash::{closure#0}")
+    ck.analysed(oc)
     gets = ordered_calls(oc, lambda t: (t.get("callee") or "").endswith("get_from_cache"))
-    args = [show(oc.expr_op(t["args"][1], deep=False)) for _, t in gets]
-    arr = [x for b, t in occ.calls_to("serde::bytes32::hash_blobs") for x in walk(occ.expr_op(t["args"][0], deep=False)) if x[0] == "agg" and x[1] == "array"]
-    els = [show(x) for x in arr[0][2]] if arr else []
-    ck.ob("R22b", oc.path, args == ["&left", "&right"] and len(els) == 3 and "right_value" in els[2] and "arg1" in els[1],
-          "the cached hash of `left` is looked up first and captured; the closure hashes 02||captured(left)||right_value",
-          site=oc.where(0), detail={"lookups": args, "blobs": els})
+    args = [re.sub(r"^.* as Pair\)\.([01])$", r"child\1", show(oc.expr_op(t["args"][1]))) for _, t in gets]
+    if occ is not None:
+        ck.analysed(occ)
+        maps = [t for _, t in oc.calls() if (t.get("callee") or "").endswith("Option::<T>::map")]
+        form_ok = len(maps) == 1 and "as Pair).1)" in show(oc.expr_op(maps[0]["args"][0])) and "as Pair).0)" in show(oc.expr_op(maps[0]["args"][1])) \
+            and "as Pair).1)" not in show(oc.expr_op(maps[0]["args"][1]))
+        arr = [x for b, t in occ.calls_to("serde::bytes32::hash_blobs") for x in walk(occ.expr_op(t["args"][0], deep=False)) if x[0] == "agg" and x[1] == "array"]
+        els = [occ.unparam(show(x)) for x in arr[0][2]] if arr else []
+        form_ok = form_ok and len(els) == 3 and "$2" in els[2] and "arg1.0" in els[1] and "b'02'" in els[0]
+    else:
+        arr = [x for b, t in oc.calls_to("serde::bytes32::hash_blobs") for x in walk(oc.expr_op(t["args"][0])) if x[0] == "agg" and x[1] == "array" and len(x[2]) == 3]
+        els = [show(x) for x in arr[0][2]] if len(arr) == 1 else []
+        form_ok = len(els) == 3 and "b'02'" in els[0] and "get_from_cache(" in els[1] and "as Pair).0)" in els[1] and "as Pair).1)" not in els[1] \
+            and "get_from_cache(" in els[2] and "as Pair).1)" in els[2] and "as Pair).0)" not in els[2]
+    ck.ob("R22b", oc.path, args == ["child0", "child1"] and form_ok,
+          "the pair hash is 02 || cached hash of the left child || cached hash of the right child (left looked up first)",
+          site=oc.where(0), detail={"lookups": args, "blobs": [e_[:160] for e_ in els], "form": "closure" if occ is not None else "inline"})
 
     # ---------------------------------------------------------------- R22c
     tbl = cr.const("more_ops::PRECOMPUTED_HASHES")
